@@ -233,7 +233,31 @@ def check(tier):
             if p_ in basep and got != basep[p_]:
                 seq_bad.append((rq, {"pattern": p_, "alone": basep[p_][:400], "in_sequence": got[:400]}))
                 break
-    rep.obligation("sequential: %d orders of %d specifications and %d patterns give the isolated results" % (len(orders), len(specs), len(PATTERNS)), not seq_bad)
+    # ---- results looked at LATER: every specification of a history is parsed first, then each result is rendered (scanner, table):
+    #      what a Parse handed out must still be what it was after other specifications have been parsed
+    prec_specs = ['grammar p;\n@left "*";\n@left "+";\nstart = start "+" start | start "*" start | "n";\n',
+                  'grammar q;\n@right "!";\n@left "&";\n@left "#";\nstart = "!" start | start "&" start | start "#" start | "t";\n',
+                  'grammar r;\n@none "<";\n@left "-";\nstart = start "-" start | start "<" start | "m";\n']
+    dspecs = prec_specs + specs
+    dbase = dict(base)
+    for t, r in zip(prec_specs, [C.hook_batch([{"op": "sequence", "texts": [t], "patterns": []}])[0] for t in prec_specs]):
+        if r.get("outcome") == "ok":
+            dbase[t] = r["results"][0]
+    dreqs = []
+    for _ in range(12 if tier == "quick" else 150):
+        o = rng.sample(range(len(dspecs)), min(len(dspecs), 6))
+        dreqs.append({"op": "sequence", "deferred": True, "texts": [dspecs[i] for i in o] + [dspecs[o[0]]], "patterns": []})
+    dreqs.append({"op": "sequence", "deferred": True, "texts": prec_specs + prec_specs[:1], "patterns": []})
+    for rq, r in zip(dreqs, C.hook_map(dreqs, timeout_each=120)):
+        if not r or r.get("outcome") != "ok":
+            seq_bad.append((rq, "no result: %r" % (r,)))
+            continue
+        for t, got in zip(rq["texts"], r["results"]):
+            if t in dbase and got != dbase[t] and not c15.only_cfg_verify_order(json.loads(got).get("parse_error", ""), json.loads(dbase[t]).get("parse_error", "x")):
+                seq_bad.append((rq, {"text": t, "alone": dbase[t][:600], "rendered_after_the_other_parses": got[:600]}))
+                break
+    rep.obligation("sequential: %d orders of %d specifications and %d patterns give the isolated results; %d histories rendered after all their parses too"
+                   % (len(orders), len(specs), len(PATTERNS), len(dreqs)), not seq_bad)
     for rq, why in seq_bad[:2]:
         rep.failure("sequence", {"sequence"}, {"history": rq["texts"], "patterns": rq["patterns"], "difference": why})
 
